@@ -140,6 +140,41 @@ fn mutate(rng: &mut Rng, m: &mut Vec<u8>) {
     }
 }
 
+/// Does the label walk from `start` run into a pointer to itself?  Only used
+/// to budget the watchdog (which offsets to probe, how long to wait); the
+/// recorded value is always what the library did.
+fn reaches_selfptr(m: &[u8], mut start: usize) -> bool {
+    for _ in 0..(m.len() + 2) {
+        if start >= m.len() {
+            return false;
+        }
+        let b = m[start] as usize;
+        if b == 0 {
+            return false;
+        } else if b <= 63 {
+            if start + 1 + b > m.len() {
+                return false;
+            }
+            start += 1 + b;
+        } else if b >= 0xC0 {
+            if start + 1 >= m.len() {
+                return false;
+            }
+            let t = ((b & 0x3F) << 8) | m[start + 1] as usize;
+            if t > start {
+                return false;
+            }
+            if t == start {
+                return true;
+            }
+            start = t;
+        } else {
+            return false;
+        }
+    }
+    false
+}
+
 fn main() {
     quiet_panics();
     let args: Vec<String> = std::env::args().collect();
@@ -216,7 +251,7 @@ fn main() {
         if m.len() > 12 {
             for _ in 0..6 {
                 let s = 12 + rng.below((m.len() - 12) as u64) as usize;
-                let selfptr = s + 1 < m.len() && m[s] >= 0xC0 && (((m[s] as usize & 0x3F) << 8) | m[s + 1] as usize) == s;
+                let selfptr = reaches_selfptr(&m, s);
                 if selfptr && slw.hangs >= slw.max_hangs {
                     continue;
                 }
